@@ -4,9 +4,10 @@
 (*                                                                         *)
 (* Per behaviour (case) the harness logs, in this order:                    *)
 (*  [ev "reset", case]                                                      *)
-(*  [ev "solo", case, d, pos, op, ret, view]   the program of document d    *)
-(*        run ALONE after the registries were reset; pos = 0 is the fresh   *)
-(*        document, pos = k the state after its k-th call                   *)
+(*  [ev "solo", case, d, ops, rets, views]   the program `ops` of document  *)
+(*        d run ALONE after the registries were reset; views[1] is the      *)
+(*        fresh document, views[k+1] / rets[k] the state after / the result *)
+(*        of its k-th call (position k)                                     *)
 (*  [ev "step", case, d, op, fin, ret, busy, views]   one step of the       *)
 (*        TLC schedule executed with all documents alive in one process;    *)
 (*        views = the view of EVERY document after the step; fin = the call *)
@@ -34,8 +35,8 @@ EXTENDS Iso, Json, IOUtils
 
 Trace == ndJsonDeserialize(IOEnv.WZ_OBS)
 
-VARIABLES l, vt, sv, pos, div, der, ms, wit
-tvars == <<l, vt, sv, pos, div, der, ms, wit>>
+VARIABLES l, vt, sv, pos, div, der, wit
+tvars == <<l, vt, sv, pos, div, der, wit>>
 
 AddWit(w, sigs, c) == w \cup {[sig |-> s, case |-> c] : s \in {x \in sigs : ~\E r \in w : r.sig = x}}
 SetOf(s) == {s[i] : i \in DOMAIN s}
@@ -62,25 +63,30 @@ News(now, old) == {FName(x) : x \in {y \in now \ old : ~Derived(y, now)}}
 LastPos(d) == LET P == {k[2] : k \in {x \in DOMAIN sv : x[1] = d}}
               IN IF P = {} THEN -1 ELSE CHOOSE p \in P : \A q \in P : q <= p
 
-TInit == l = 1 /\ vt = NoViews /\ sv = Nil /\ pos = Nil /\ div = Nil /\ der = {} /\ ms = Nil /\ wit = {}
+TInit == l = 1 /\ vt = NoViews /\ sv = Nil /\ pos = Nil /\ div = Nil /\ der = {} /\ wit = {}
 
 TReset == /\ l <= Len(Trace) /\ Trace[l].ev = "reset"
-          /\ vt' = NoViews /\ sv' = Nil /\ pos' = Nil /\ div' = Nil /\ der' = {} /\ ms' = Nil /\ wit' = wit /\ l' = l + 1
+          /\ vt' = NoViews /\ sv' = Nil /\ pos' = Nil /\ div' = Nil /\ der' = {} /\ wit' = wit /\ l' = l + 1
 
-\* a document run alone: remember its views; check the model against it
+\* a document run alone: remember its views; check the model against them
+RECURSIVE ModelSigs(_, _, _, _, _)
+ModelSigs(T, e, s, R0, i) ==
+  LET mv == View(s.L, s.R, e.d)
+      v  == T[e.views[i + 1]]
+      nm == IF i = 0 THEN "New" ELSE e.ops[i].op
+      here == (IF mv.fnCount # v.fnCount THEN {<<"MODEL", "fnCount", nm>>} ELSE {})
+              \cup (IF mv.enCount # v.enCount THEN {<<"MODEL", "enCount", nm>>} ELSE {})
+              \cup (IF i > 0 /\ Ret(R0, e.ops[i]) # e.rets[i] THEN {<<"MODEL", "ret", nm>>} ELSE {})
+  IN IF i >= Len(e.ops) THEN here
+     ELSE here \cup ModelSigs(T, e, ApplyDoc(s, e.d, e.ops[i + 1]), s.R, i + 1)
+
 TSolo == /\ l <= Len(Trace) /\ Trace[l].ev = "solo"
-         /\ LET e  == Trace[l]
-                s0 == Get(ms, e.d, InitDoc)
-                s1 == IF e.pos = 0 THEN InitDoc ELSE ApplyDoc(s0, e.d, e.op)
-                mv == View(s1.L, s1.R, e.d)
-                T  == e.defs @@ vt
-                sigs == (IF mv.fnCount # T[e.view].fnCount THEN {<<"MODEL", "fnCount", e.op.op>>} ELSE {})
-                        \cup (IF mv.enCount # T[e.view].enCount THEN {<<"MODEL", "enCount", e.op.op>>} ELSE {})
-                        \cup (IF e.pos > 0 /\ Ret(s0.R, e.op) # e.ret THEN {<<"MODEL", "ret", e.op.op>>} ELSE {})
+         /\ LET e == Trace[l]
+                T == e.defs @@ vt
+                K == {<<e.d, p>> : p \in 0..Len(e.ops)}
             IN /\ vt' = T
-               /\ sv' = (<<e.d, e.pos>> :> [view |-> e.view, ret |-> e.ret]) @@ sv
-               /\ ms' = (e.d :> s1) @@ ms
-               /\ wit' = AddWit(wit, sigs, e.case)
+               /\ sv' = [k \in K |-> [view |-> e.views[k[2] + 1], ret |-> IF k[2] = 0 THEN "ok" ELSE e.rets[k[2]]]] @@ sv
+               /\ wit' = AddWit(wit, ModelSigs(T, e, InitDoc, InitReg, 0), e.case)
          /\ UNCHANGED <<pos, div, der>> /\ l' = l + 1
 
 TStep == /\ l <= Len(Trace) /\ Trace[l].ev = "step"
@@ -102,7 +108,7 @@ TStep == /\ l <= Len(Trace) /\ Trace[l].ev = "step"
                /\ div' = [d \in D |-> IF d \in J THEN now(d) ELSE Get(div, d, {})]
                /\ der' = IF badret THEN der \cup {e.d} ELSE der
                /\ pos' = np
-         /\ UNCHANGED <<sv, ms>> /\ l' = l + 1
+         /\ UNCHANGED sv /\ l' = l + 1
 
 TRace == /\ l <= Len(Trace) /\ Trace[l].ev = "race"
          /\ LET e == Trace[l]
@@ -113,11 +119,11 @@ TRace == /\ l <= Len(Trace) /\ Trace[l].ev = "race"
                         \cup UNION {{<<"C07", "concurrent", f>> : f \in News(DiffId(T, e.views[d], sv[<<d, LastPos(d)>>].view), {})} : d \in D}
             IN /\ vt' = T
                /\ wit' = AddWit(wit, sigs, e.case)
-         /\ UNCHANGED <<sv, pos, div, der, ms>> /\ l' = l + 1
+         /\ UNCHANGED <<sv, pos, div, der>> /\ l' = l + 1
 
 TDone == /\ l = Len(Trace) + 1
          /\ PrintT(<<"WZDONE", l - 1, ToJson(wit)>>)
-         /\ l' = l + 1 /\ UNCHANGED <<vt, sv, pos, div, der, ms, wit>>
+         /\ l' = l + 1 /\ UNCHANGED <<vt, sv, pos, div, der, wit>>
 
 TNext == TReset \/ TSolo \/ TStep \/ TRace \/ TDone
 TSpec == TInit /\ [][TNext]_tvars
